@@ -163,7 +163,9 @@ def check(ctx, run):
         ok = False
         why = 'expected an item loop containing an entry-word back-patch loop'
         bad = []
-        if len(heads) >= 2:
+        nested = len(heads) >= 2 and set(loops[heads[1]]) < set(loops[heads[0]]) and any(
+            called(callee_name(b.blocks[x]['term']), 'IndexMut::index_mut') for x in loops[heads[1]] if b.blocks[x]['term']['k'] == 'call')
+        if nested:
             outer, inner = heads[0], heads[1]
             # blocks where a popped position is Some: successors of the switch on discr(pop_front)
             ex = Explorer(b)
@@ -181,7 +183,7 @@ def check(ctx, run):
                 why = 'a path from a popped position reaches the next iteration without passing the loop that writes its entry word: the reserved entry stays zero (null)'
         if ok:
             run.proved('R15.3', b.path, 'entry-word-per-item', 'every popped position passes through the entry back-patch loop before the next one', f'{b.file}:{b.line}')
-        elif len(heads) >= 2 and bad:
+        elif nested and bad:
             run.violation('R15.3', b.path, 'entry-word-per-item', why, f'{b.file}:{b.line}')
         else:
             run.undecided('R15.3', b.path, 'entry-word-per-item', 'the array writer is not an item loop over popped positions containing a byte-wise entry back-patch loop (the shape this rule reads): '
